@@ -238,15 +238,19 @@ class Translator:
             it = self._iterable(self.eval(st.iter, env, mod, depth), st.iter, depth)
             if not isinstance(it, (list, tuple, range, dict, str)):
                 raise Unmodelled("loop over a non-constant iterable: %s" % ast.unparse(st.iter))
+            broke = False
             for x in list(it):
                 self.assign(st.target, x, env, mod, depth)
                 r = self.exec_body(st.body, env, mod, depth)
                 if r is not None:
                     if r[0] == "break":
+                        broke = True
                         break
                     if r[0] == "continue":
                         continue
                     return r
+            if st.orelse and not broke:
+                return self.exec_body(st.orelse, env, mod, depth)  # for ... else: runs unless the loop was left by break
             return None
         if isinstance(st, ast.While):
             # bounded unrolling; the loop must terminate within the bound under the stated branch policy
@@ -406,7 +410,9 @@ class Translator:
             out = []
             for x in n.elts:
                 if isinstance(x, ast.Starred):
-                    v = self.eval(x.value, env, mod, depth)
+                    v = self._iterable(self.eval(x.value, env, mod, depth), x, depth)
+                    if isinstance(v, dict):
+                        v = list(v)
                     if not isinstance(v, (list, tuple, range, str)):
                         raise Unmodelled("starred expression over a symbolic value")
                     out.extend(list(v))
@@ -467,7 +473,18 @@ class Translator:
         if isinstance(n, ast.Lambda):
             return Closure(n, env, self, mod)
         if isinstance(n, ast.JoinedStr):
-            return "<fstring>"
+            parts = []
+            for v in n.values:
+                if isinstance(v, ast.Constant):
+                    parts.append(str(v.value))
+                elif isinstance(v, ast.FormattedValue):
+                    val = self.eval(v.value, env, mod, depth)
+                    if v.conversion not in (-1, 115, 114) or (v.format_spec is not None and ast.unparse(v.format_spec) not in ("f''", 'f""')):
+                        return "<fstring>"  # a format specification: the text is not reconstructed
+                    parts.append(self.builtin("str", [val], {}, v))
+                else:
+                    return "<fstring>"
+            return "".join(parts)
         if isinstance(n, ast.Starred):
             raise Unmodelled("starred expression")
         raise Unmodelled("expression kind %s: %s" % (type(n).__name__, ast.unparse(n)[:60]))
@@ -538,6 +555,8 @@ class Translator:
             tmod, attr = mod.imports[name]
             if tmod in ("math", "numpy") and attr in ("pi", "e", "inf"):
                 return {"pi": sp.pi, "e": sp.E, "inf": sp.oo}[attr]
+            if tmod == "itertools" and attr is not None:
+                return Opaque("itertools." + attr)
             if attr is None or self.repo.by_modname.get(tmod) is None:
                 r = self.repo.resolve_name(mod, name)
                 if r is not None:
@@ -548,6 +567,8 @@ class Translator:
             return r
         if name in mod.toplevel_assign:
             return self.eval(mod.toplevel_assign[name], {}, mod, depth)
+        if name in ("product", "chain", "combinations", "permutations", "accumulate", "zip_longest", "repeat") and mod.imports.get(name, (None, None))[0] == "itertools":
+            return Opaque("itertools." + name)
         if name in ("int", "float", "len", "range", "abs", "sum", "list", "tuple", "zip", "enumerate", "min", "max",
                     "isinstance", "hasattr", "callable", "complex", "round", "pow", "print", "dict", "str", "sorted", "reversed", "bool", "type",
                     "set", "frozenset", "any", "all", "map", "filter", "getattr", "iter", "next"):
@@ -626,7 +647,7 @@ class Translator:
         args = []
         for a in n.args:
             if isinstance(a, ast.Starred):
-                v = self.eval(a.value, env, mod, depth)
+                v = self._iterable(self.eval(a.value, env, mod, depth), a, depth)
                 if not isinstance(v, (list, tuple)):
                     raise Unmodelled("*args of symbolic value")
                 args.extend(v)
@@ -656,6 +677,8 @@ class Translator:
                 return sp.Function(last)(*[x for x in args if is_sym(x)])
             if d in self.hooks:
                 return self.hooks[d](self, args, kwargs, n)
+            if head not in env and head in mod.imports and mod.imports[head][0] == "itertools" and mod.imports[head][1] is not None and "." not in d:
+                return self.numeric_call("itertools." + mod.imports[head][1], mod.imports[head][1], args, kwargs, n)
             if head not in env and (head in NUMERIC_MODULES or head in mod.imports and self.repo.resolve_name(mod, head) is None):
                 return self.numeric_call(d, last, args, kwargs, n)
         callee = self.eval(f, env, mod, depth) if not isinstance(f, ast.Attribute) or d is not None else None
@@ -907,7 +930,11 @@ class Translator:
             raise Unmodelled("type() of a symbolic value")
         if name == "str" and len(args) == 1:
             if isinstance(a0, str):
-                return a0
+                return str(a0)
+            if isinstance(a0, (bool, int, float, type(None))):
+                return str(a0)
+            if isinstance(a0, tuple) and _pyplain(a0):
+                return str(a0)
             if is_sym(a0) and a0.is_number:
                 return str(a0)
             if isinstance(a0, SelfObj) and isinstance(a0.attrs.get("__str__"), str):
@@ -951,7 +978,8 @@ class Translator:
             out.update(kwargs)
             return out
         if name == "enumerate":
-            return [(sp.Integer(i), x) for i, x in enumerate(list(a0))]
+            start = kwargs.get("start", args[1] if len(args) > 1 else 0)
+            return [(sp.Integer(i), x) for i, x in enumerate(list(a0), _pyint(start))]
         if name == "reversed":
             return list(reversed(list(a0)))
         if name == "sorted":
@@ -992,11 +1020,34 @@ class Translator:
 
     def numeric_call(self, d, last, args, kwargs, n):
         a0 = args[0] if args else None
+        if d.split(".")[0] == "itertools":
+            import itertools as _it
+            seqs = []
+            for a in args:
+                a = self._iterable(a, n, 0)
+                if isinstance(a, dict):
+                    a = list(a)
+                if not isinstance(a, (list, tuple, range, str)):
+                    seqs = None
+                    break
+                seqs.append(list(a))
+            if seqs is not None and last == "product":
+                rep = _pyint(kwargs.get("repeat", 1))
+                return [tuple(x) for x in _it.product(*seqs, repeat=rep)]
+            if seqs is not None and last == "chain":
+                return [x for s_ in seqs for x in s_]
+            if last in ("combinations", "permutations") and len(args) >= 1 and isinstance(self._iterable(args[0], n, 0), (list, tuple, range)):
+                r_ = _pyint(args[1]) if len(args) > 1 else _pyint(kwargs.get("r")) if kwargs.get("r") is not None else None
+                f_ = getattr(_it, last)
+                return [tuple(x) for x in (f_(list(self._iterable(args[0], n, 0)), r_) if r_ is not None else f_(list(self._iterable(args[0], n, 0))))]
+            raise Unmodelled("itertools.%s of these arguments" % last)
         first = self.hooks.get("numeric_call_first")
         if first:
             r = first(self, d, args, kwargs, n)
             if r is not NotImplemented:
                 return r
+        if last == "diag" and isinstance(a0, (list, tuple)) and a0 and all(is_sym(x) or isinstance(x, (int, float)) for x in a0):
+            return np.diag(as_arr(list(a0))) + sp.Integer(0)
         if last == "map_structure" and len(args) >= 2:
             # tf.nest.map_structure(f, *structures): f applied leaf-wise over parallel lists / tuples / dicts
             fn_, structs = args[0], args[1:]
@@ -1047,6 +1098,13 @@ class Translator:
         if last in ("atan2", "arctan2"):
             return sp.atan2(_s(args[0]), _s(args[1]))
         if last == "where":
+            c0 = args[0]
+            if isinstance(c0, (list, tuple)) and c0 and all(isinstance(x, bool) or x is sp.true or x is sp.false for x in c0):
+                vals = []
+                for k_, ck in enumerate(c0):
+                    pick = args[1] if self.truth(ck, n) else args[2]
+                    vals.append(pick[k_] if isinstance(pick, (list, tuple, np.ndarray)) else pick)
+                return as_arr(vals)  # element-wise selection by a list of flags
             c = self.truth(args[0], n)
             return _s(args[1] if c else args[2])
         if last == "polyval":
@@ -1104,6 +1162,11 @@ class Translator:
             for x in a0:
                 tot = tot + _s(x)
             return tot
+        if last in ("reduce_prod", "prod") and isinstance(a0, (list, tuple)) and a0 and all(is_sym(x) or isinstance(x, (int, float)) for x in a0) and ax(None) in (0, None):
+            tot = sp.Integer(1)
+            for x in a0:
+                tot = tot * _s(x)
+            return tot
         if last in ("reduce_sum", "sum") and is_arr(a0):
             k = ax(None)
             r = np.sum(a0, axis=k)
@@ -1139,8 +1202,20 @@ class Translator:
         if last == "norm":
             return sp.sqrt(np.sum(a0 * a0, axis=ax(-1)))
         if d in IDENTITY_CALLS or last in ("cast", "convert_to_tensor", "identity", "stop_gradient", "asarray"):
+            if last == "array" and isinstance(a0, np.ndarray):
+                return a0.copy()  # np.array(x) copies an array (np.asarray does not)
             return a0
         if last == "where":
+            c0 = args[0]
+            if isinstance(c0, (list, tuple)) and c0 and all(isinstance(x, bool) or x is sp.true or x is sp.false for x in c0):
+                c0 = np.array(list(c0), dtype=object)
+            if isinstance(c0, np.ndarray) and c0.dtype == object and _boolish(c0) and c0.size:
+                A, B = as_arr(args[1]) if is_arr(args[1]) else args[1], as_arr(args[2]) if is_arr(args[2]) else args[2]
+                C, A, B = np.broadcast_arrays(c0, np.asarray(A, dtype=object), np.asarray(B, dtype=object))
+                out = np.empty(C.shape, dtype=object)
+                for i in np.ndindex(C.shape):
+                    out[i] = A[i] if self.truth(C[i], n) else B[i]
+                return out
             c = self.truth(args[0], n)
             return args[1] if c else args[2]
         if last in ("einsum",):
@@ -1161,7 +1236,7 @@ class Translator:
             A, B = as_arr(args[0]), as_arr(args[1])
             return {"multiply": A * B, "add": A + B, "subtract": A - B}.get(last, A / B)
         if last == "diag":
-            return np.diag(a0) + sp.Integer(0)
+            return np.diag(as_arr(a0)) + sp.Integer(0)
         if last == "cross":
             return np.cross(as_arr(args[0]), as_arr(args[1]))
         if last == "normalize":
@@ -1173,7 +1248,9 @@ class Translator:
             perm = kwargs.get("perm", args[1] if len(args) > 1 else None)
             return np.transpose(a0, [_pyint(x) for x in perm] if perm is not None else None)
         if last == "reshape":
-            shp = args[1]
+            shp = args[1] if len(args) > 1 else kwargs.get("shape", kwargs.get("newshape"))
+            if shp is None:
+                raise Unmodelled("reshape without a shape")
             return np.reshape(a0, [_pyint(x) for x in shp])
         if last == "complex" and len(args) == 2:
             return as_arr(args[0]) + sp.I * as_arr(args[1])
@@ -1229,6 +1306,12 @@ class Translator:
         if isinstance(a, str) or isinstance(b, str):
             if isinstance(op, ast.Add):
                 return str(a) + str(b)
+            if isinstance(op, ast.Mod) and isinstance(a, str):
+                vals = b if isinstance(b, tuple) else (b,)
+                try:
+                    return str(a) % tuple((int(v) if is_sym(v) and v.is_Integer else (float(v) if is_sym(v) and v.is_number else (str(v) if not isinstance(v, (int, float, str)) else v))) for v in vals)
+                except (TypeError, ValueError):
+                    return "<fmt>"
             if isinstance(op, ast.Mod):
                 return "<fmt>"
             raise Unmodelled("string arithmetic")
@@ -1260,6 +1343,11 @@ class Translator:
         raise Unmodelled("operator %s" % type(op).__name__)
 
     def compare(self, op, a, b):
+        if isinstance(a, PySet) and isinstance(b, PySet) and isinstance(op, (ast.Eq, ast.NotEq, ast.Lt, ast.LtE, ast.Gt, ast.GtE)):
+            ka, kb = [_pykey(x) for x in a], [_pykey(x) for x in b]
+            sub, sup = all(x in kb for x in ka), all(x in ka for x in kb)
+            table = {ast.Eq: sub and sup, ast.NotEq: not (sub and sup), ast.LtE: sub, ast.Lt: sub and not sup, ast.GtE: sup, ast.Gt: sup and not sub}
+            return table[type(op)]  # subset / superset tests, as for Python sets
         if isinstance(op, (ast.Is, ast.IsNot)) and (is_arr(a) or is_arr(b)):
             r = a is b
             return r if isinstance(op, ast.Is) else not r
